@@ -86,6 +86,56 @@ class GhostList(object):
         return "GhostList(%r ++ <%s hidden> ++ %r)" % (self.items, self.hidden, self.tail)
 
 
+class SymSlots(object):
+    """a python list of symbolic length whose slots are written and read by (symbolic) index: a base content (a function
+    of the canonical index 0 <= e < n, None everywhere for a fresh `[None for _ in range(n)]`) plus the stores made since"""
+
+    def __init__(self, n, base=None):
+        self.n = n
+        self.base = base
+        self.stores = []
+
+    def canon(self, i):
+        n_e = self.n.e if isinstance(self.n, SInt) else z3.IntVal(self.n)
+        if isinstance(i, bool) or not isinstance(i, (int, SInt)):
+            raise OutOfSubset("slot index %r" % (i,))
+        c = ctx()
+        if isinstance(i, int):
+            e = z3.IntVal(i) if i >= 0 else n_e + i
+        else:
+            e = n_e + i.e if c.branch(i.e < 0) else i.e
+        if not c.branch(z3.And(e >= 0, e < n_e)):
+            raise IndexError("list index out of range")
+        return z3.simplify(e)
+
+    def __setitem__(self, i, v):
+        self.stores.append((self.canon(i), v))
+
+    def read(self, e):
+        c = ctx()
+        for e2, v in reversed(self.stores):
+            if c.branch(e == e2):
+                return v
+        return self.base(e) if self.base is not None else None
+
+    def __getitem__(self, i):
+        return self.read(self.canon(i))
+
+    def pv_len(self):
+        return self.n
+
+    def __len__(self):
+        raise OutOfSubset("builtin len() of a list of symbolic length")
+
+    def __iter__(self):
+        raise OutOfSubset("iteration over a list of symbolic length")
+
+    def snapshot(self):
+        s = SymSlots(self.n, self.base)
+        s.stores = list(self.stores)
+        return s
+
+
 def pv_list(x=()):
     if isinstance(x, GhostList):
         return x.snapshot()
